@@ -12,6 +12,10 @@ pub struct Stats {
     pub nested_depth: usize,
 }
 
+/// prefix of the error returned for an instruction the verifier does not know: callers skip the
+/// program instead of reporting it
+pub const UNKNOWN_OPCODE: &str = "unknown-opcode ";
+
 /// (values required on the stack, net effect)
 fn effect(b: &ByteCode) -> (i64, i64) {
     use ByteCode::*;
@@ -29,6 +33,9 @@ fn effect(b: &ByteCode) -> (i64, i64) {
         Index | Access => (2, -1),
         Call(n) => (*n as i64 + 1, -(*n as i64)),
         FmtString(n) => (*n as i64, 1 - *n as i64),
+        // an instruction this verifier does not know (added later): nothing can be said
+        #[allow(unreachable_patterns)]
+        _ => (i64::MIN, 0),
     }
 }
 
@@ -71,6 +78,9 @@ fn verify_block(block: &[ByteCode], depth: usize, st: &mut Stats, path: &str) ->
         let h = height[pc].unwrap();
         let ins = &block[pc];
         let (need, eff) = effect(ins);
+        if need == i64::MIN {
+            return Err(format!("{}{}: pc {} ({:?})", UNKNOWN_OPCODE, path, pc, ins));
+        }
         if h < need {
             return Err(format!(
                 "{}: pc {} ({:?}) needs {} value(s) but a path arrives with {}",
